@@ -53,7 +53,8 @@ func (c *cctx) Done() <-chan struct{} { return c.done }
 func (c *cctx) Err() error {
 	// reading the error is a visible operation (it races with cancel)
 	if vsched.Active() {
-		vsched.Point("ctx.err")
+		vsched.PointS("ctx.err")
+		vsched.Acquire(c.done) // Err synchronises with the cancellation (the std context takes its mutex)
 	}
 	return c.err
 }
@@ -88,7 +89,7 @@ func (c *cctx) AfterFunc(f func()) func() bool {
 
 func (c *cctx) cancel(err, cause error) {
 	if vsched.Active() {
-		vsched.Point("ctx.cancel")
+		vsched.PointS("ctx.cancel")
 	}
 	c.cancelNoPoint(err, cause)
 }
@@ -215,7 +216,8 @@ func WithoutCancel(parent Context) Context { return withoutCancel{parent} }
 func Cause(c Context) error {
 	if cc, ok := c.Value(&selfKey).(*cctx); ok {
 		if vsched.Active() {
-			vsched.Point("ctx.cause")
+			vsched.PointS("ctx.cause")
+			vsched.Acquire(cc.done)
 		}
 		return cc.cause
 	}
